@@ -96,6 +96,13 @@ fn scan_buffer(scan: &mut Scan, buf: &Buffer) {
         if let Some(f) = &s.font_opt {
             scan_str(scan, "sauce.font", f);
         }
+        // the text a SAUCE field hands out (CP437 bytes converted to a String)
+        scan_str(scan, "sauce.title", &s.title.to_string());
+        scan_str(scan, "sauce.author", &s.author.to_string());
+        scan_str(scan, "sauce.group", &s.group.to_string());
+        for (i, c) in s.comments.iter().enumerate() {
+            scan_str(scan, &format!("sauce.comment {i}"), &c.to_string());
+        }
     }
     // the composited view returns chars as well
     for y in 0..buf.get_height().min(64) {
@@ -273,8 +280,18 @@ impl C10 {
                 let b = (k2 as u32 - 459) * 4096;
                 C10Case { kind: "clipboard".into(), values: (b..b + 4096).collect(), bytes: vec![], note: "attr-sweep".into() }
             }
+            475..=730 => {
+                // SAUCE text fields: every byte value between printable ASCII (a fast path for "plain" text meets its limits)
+                let b = (k2 - 475) as u8;
+                C10Case { kind: "sauce".into(), values: vec![b as u32], bytes: vec![b'F', b'a', b, b'a', b'd', b'e'], note: "one byte between ASCII".into() }
+            }
             _ => {
                 let mut rng = ctx.rng(k);
+                if rng.chance(1, 8) {
+                    let n = 1 + rng.usize(30);
+                    let bytes: Vec<u8> = (0..n).map(|_| if rng.chance(1, 3) { rng.byte() } else { 0x20 + rng.usize(0x61) as u8 }).collect();
+                    return C10Case { kind: "sauce".into(), values: vec![], bytes, note: "random field".into() };
+                }
                 match rng.usize(6) {
                     0 => C10Case { kind: "fill".into(), values: (0..64).map(|_| if rng.bool() { 0x11_0000 + rng.below(0x7FEE_FFFF) as u32 } else { rng.below(0x11_0000) as u32 }).collect(), bytes: vec![], note: "random".into() },
                     1 => C10Case { kind: "icy-cells".into(), values: (0..40).map(|_| rng.next_u32()).collect(), bytes: vec![], note: "random".into() },
@@ -317,6 +334,45 @@ impl C10 {
                                 results += 1;
                             }
                         }
+                        scan_buffer(&mut scan, &buf);
+                    }
+                }
+                "sauce" => {
+                    // "x" + EOF + COMNT block + SAUCE record whose text fields all carry the case's bytes
+                    let field = |n: usize, pad: u8| -> Vec<u8> {
+                        let mut v = c.bytes.clone();
+                        v.truncate(n);
+                        v.resize(n, pad);
+                        v
+                    };
+                    let mut file = b"x\x1aCOMNT".to_vec();
+                    file.extend(field(64, 0));
+                    file.extend_from_slice(b"SAUCE00");
+                    file.extend(field(35, b' '));
+                    file.extend(field(20, b' '));
+                    file.extend(field(20, b' '));
+                    file.extend_from_slice(b"19970401");
+                    file.extend(1u32.to_le_bytes());
+                    file.extend([1u8, 1]);
+                    file.extend(80u16.to_le_bytes());
+                    file.extend(25u16.to_le_bytes());
+                    file.extend([0u8; 4]);
+                    file.extend([1u8, 0]);
+                    file.extend(field(22, 0));
+                    if let Ok(Some(sd)) = icy_engine::SauceData::extract(&file) {
+                        results += 1;
+                        scan_str(&mut scan, "extract.title", &sd.title.to_string());
+                        scan_str(&mut scan, "extract.author", &sd.author.to_string());
+                        scan_str(&mut scan, "extract.group", &sd.group.to_string());
+                        for cm in &sd.comments {
+                            scan_str(&mut scan, "extract.comment", &cm.to_string());
+                        }
+                        if let Some(f) = &sd.font_opt {
+                            scan_str(&mut scan, "extract.font", f);
+                        }
+                    }
+                    if let Ok(buf) = Buffer::from_bytes(std::path::Path::new("s.ans"), false, &file) {
+                        results += 1;
                         scan_buffer(&mut scan, &buf);
                     }
                 }
@@ -549,7 +605,7 @@ impl Prop for C10 {
         "C10"
     }
     fn rule(&self) -> &'static str {
-        "after every case a raw-bits monitor reads every stored char of every layer, every glyph-table key and every composited cell as u32 (volatile read) and checks 0..=0xD7FF | 0xE000..=0x10FFFF, and re-validates the bytes of every String (titles, font names, macro bodies via hook H5, hyperlinks, palette strings) with str::from_utf8; the verdict-bearing build has debug assertions, so an invalid value passed to char::from_u32_unchecked aborts the worker (attributed to the case). cases: fill-rectangle (DECFRA) character parameter - every value 0..=0x110010 in thorough (every 4th in quick) plus all 2048 surrogates, boundaries, 2^k+-1 up to 2^31-1; all 65536 clipboard cell values under 19 record templates (plain, each single attribute flag bit - 0x8000 marks the cells outside a selection -, all bits set, transparent colours) and the surrogates under all 65536 attribute words; IcyDraw long-form cells with all surrogates / boundaries / random 32-bit values in first and continuation chunks, each file under the header's own and six other declared buffer types / mode bytes (Unicode, PETSCII, ATASCII, Viewdata, undefined) (the surrogates also on the font page of an embedded PSF2 font with 57400 glyphs); layer titles and font names with 8 invalid-UTF-8 classes and random bytes; font data of 1..2^17 glyphs (PSF1, PSF2, create_8, from_basic, re-encoders); all 256x256 hex-macro byte pairs; random DCS/OSC streams. distinct_nontrivial = distinct (kind, first value / payload, accepted count) fingerprints"
+        "after every case a raw-bits monitor reads every stored char of every layer, every glyph-table key and every composited cell as u32 (volatile read) and checks 0..=0xD7FF | 0xE000..=0x10FFFF, and re-validates the bytes of every String (titles, font names, macro bodies via hook H5, hyperlinks, palette strings) with str::from_utf8; the verdict-bearing build has debug assertions, so an invalid value passed to char::from_u32_unchecked aborts the worker (attributed to the case). cases: fill-rectangle (DECFRA) character parameter - every value 0..=0x110010 in thorough (every 4th in quick) plus all 2048 surrogates, boundaries, 2^k+-1 up to 2^31-1; all 65536 clipboard cell values under 19 record templates (plain, each single attribute flag bit - 0x8000 marks the cells outside a selection -, all bits set, transparent colours) and the surrogates under all 65536 attribute words; IcyDraw long-form cells with all surrogates / boundaries / random 32-bit values in first and continuation chunks, each file under the header's own and six other declared buffer types / mode bytes (Unicode, PETSCII, ATASCII, Viewdata, undefined) (the surrogates also on the font page of an embedded PSF2 font with 57400 glyphs); layer titles and font names with 8 invalid-UTF-8 classes and random bytes; font data of 1..2^17 glyphs (PSF1, PSF2, create_8, from_basic, re-encoders); all 256x256 hex-macro byte pairs; SAUCE text fields (title, author, group, comment, font name) with every byte value between printable ASCII and random CP437 bytes, read through SauceData::extract and through a loaded buffer; random DCS/OSC streams. distinct_nontrivial = distinct (kind, first value / payload, accepted count) fingerprints"
     }
     fn meta(&self, ctx: &Ctx) -> Value {
         json!({"floor_evaluations": 1000, "floor_distinct": ctx.tier.pick(500u64, 2000u64),
@@ -559,7 +615,7 @@ impl Prop for C10 {
         self.frame = files::build_corpus().into_iter().find(|s| s.name == "tiny.icy").map(|s| s.bytes).unwrap_or_default();
         self.fill_step = ctx.tier.pick(4, 1);
         self.n_fill = (0x11_0010u64 / (64 * self.fill_step)) + 1;
-        self.n_fill + 475 + ctx.tier.pick(20_000, 200_000)
+        self.n_fill + 731 + ctx.tier.pick(20_000, 200_000)
     }
     fn run_case(&mut self, ctx: &mut Ctx, k: u64) {
         let case = self.case_for(ctx, k);
